@@ -6,7 +6,7 @@ d=$(mktemp -d /tmp/allchk_XXXX)
 cp -r /repo/dataiter $d/ ; (cd $d && patch -p1 -s < $patch) || { echo "patch failed: $patch"; rm -rf $d; exit 2; }
 bad=0
 for p in $(/venv/bin/python -c "import json;print(' '.join(c['property_id'] for c in json.load(open('/verif/MANIFEST.json'))['checks']))"); do
-  out=$(VERIF_REPO=$d /verif/check $p --tier $tier --no-evidence 2>&1); code=$?
+  out=$(VERIF_REPO=$d ${VERIF_SNAPSHOT:-/verif}/check $p --tier $tier --no-evidence 2>&1); code=$?
   if [ $code -ne 0 ]; then bad=1; echo "$(basename $patch) $p exit=$code"; echo "$out" | grep -E "^violation|INCONCLUSIVE|harness" | cut -c1-600 | head -5; fi
 done
 [ $bad -eq 0 ] && echo "$(basename $patch): all checks silent ($tier)"
